@@ -162,12 +162,23 @@ func c15Eval(cs c15Case) (*lib.Violation, string) {
 	if pv != nil {
 		return mk("unsearchable", fmt.Sprintf("searching the returned database panicked: %v", pv))
 	}
-	if len(db.Commands) == 0 && !(isLoadable(cs.Main[0]) && cs.Main[0] != aOK) {
-		return mk("empty-database", "the returned database is empty although the main file did not load as an empty list")
+	allowed := cs.Max
+	if allowed < 1 {
+		allowed = 1
 	}
-	// what the real database would be, per attempt
-	realAt := func(k int) (string, bool) {
-		m, p := answerAt(cs.Main, k), answerAt(cs.Personal, k)
+	emptyOK := false
+	for k := 1; k <= allowed; k++ {
+		if m := answerAt(cs.Main, k); isLoadable(m) && m != aOK {
+			emptyOK = true // some permitted attempt reads the main file as an empty list
+		}
+	}
+	if len(db.Commands) == 0 && !emptyOK {
+		return mk("empty-database", "the returned database is empty although no permitted attempt reads the main file as an empty list")
+	}
+	// what the real database would be when the main file is read for the k-th and the notebook for the j-th time
+	// (the notebook is only read in rounds whose main read succeeded, so j <= k; j == k on the first round)
+	realAtJ := func(k, j int) (string, bool) {
+		m, p := answerAt(cs.Main, k), answerAt(cs.Personal, j)
 		if !isLoadable(m) {
 			return "", false
 		}
@@ -185,6 +196,7 @@ func c15Eval(cs c15Case) (*lib.Violation, string) {
 		}
 		return cmdNames(cmds), true
 	}
+	realAt := func(k int) (string, bool) { return realAtJ(k, k) }
 	got := cmdNames(db.Commands)
 	if want, ok := realAt(1); ok {
 		if got != want {
@@ -198,8 +210,10 @@ func c15Eval(cs c15Case) (*lib.Violation, string) {
 			allow = 1
 		}
 		for k := 2; k <= allow; k++ {
-			if want, ok := realAt(k); ok && got == want {
-				okLater = true
+			for j := 1; j <= k; j++ {
+				if want, ok := realAtJ(k, j); ok && got == want {
+					okLater = true
+				}
 			}
 		}
 		isBackup := cs.Backup == aOK && got == cmdNames(c15BackCmds)
@@ -242,6 +256,36 @@ func c15Eval(cs c15Case) (*lib.Violation, string) {
 	return nil, obs
 }
 
+// c15ScriptsThorough: every main-file script of <=3 answers and every notebook script of <=2 answers
+// (the last answer repeats for later attempts).
+func c15ScriptsThorough() (mains, personals [][]string, backups []string) {
+	ma := []string{aOK, aOKEmpty, aZero, aENOENT, aEACCES, aEISDIR, aEIO, aBadYAML, aWrong}
+	for _, s := range uSequences(len(ma), 3) {
+		var sc []string
+		for _, j := range s {
+			sc = append(sc, ma[j])
+		}
+		// an answer repeated at the end is the shorter script
+		if n := len(sc); n > 1 && sc[n-1] == sc[n-2] {
+			continue
+		}
+		mains = append(mains, sc)
+	}
+	pa := []string{aAbsent, aOK, aOKEmpty, aBadYAML, aEACCES, aEIO, aWrong}
+	for _, s := range uSequences(len(pa), 2) {
+		var sc []string
+		for _, j := range s {
+			sc = append(sc, pa[j])
+		}
+		if n := len(sc); n > 1 && sc[n-1] == sc[n-2] {
+			continue
+		}
+		personals = append(personals, sc)
+	}
+	backups = []string{aAbsent, aOK, aBadYAML, aOKEmpty, aZero}
+	return
+}
+
 func c15Scripts() (mains, personals [][]string, backups []string) {
 	for _, a := range []string{aOK, aOKEmpty, aZero, aENOENT, aEACCES, aEISDIR, aEIO, aBadYAML, aWrong} {
 		mains = append(mains, []string{a})
@@ -260,18 +304,26 @@ func c15Scripts() (mains, personals [][]string, backups []string) {
 
 func c15Run(c *lib.Ctx) {
 	mains, personals, backups := c15Scripts()
+	bases, facs := []float64{0, 1, 100}, []float64{1, 2, 10}
+	if c.Thorough() {
+		mains, personals, backups = c15ScriptsThorough()
+		bases, facs = []float64{0, 100}, []float64{1, 2}
+	}
 	var idx int64
 	selfCheck := 0
 	for _, m := range mains {
 		for _, p := range personals {
 			for _, b := range backups {
 				for _, max := range []int{-1, 0, 1, 2, 3, 5} {
-					for _, base := range []float64{0, 1, 100} {
-						for _, fac := range []float64{1, 2, 10} {
+					for _, base := range bases {
+						for _, fac := range facs {
 							for _, maxd := range []float64{0, 150, 5000} {
 								idx++
 								if !c.Mine(idx) {
 									continue
+								}
+								if idx%4096 == int64(c.Shard) && c.Expired() {
+									return
 								}
 								cs := c15Case{Main: m, Personal: p, Backup: b, Max: max, BaseMs: base, Factor: fac, MaxMs: maxd}
 								v, obs := c15Eval(cs)
@@ -317,7 +369,7 @@ func c15Run(c *lib.Ctx) {
 func init() {
 	lib.Register(&lib.Check{
 		ID: "C15", Level: "fault_enumeration",
-		Rule:      "every fault script: main file answers per attempt in {9 stationary answers: ok, ok-empty-list, zero-bytes, ENOENT, EACCES, EISDIR, EIO, malformed, wrong-shape} + {one or two transient faults (EIO, malformed, ENOENT, EACCES, EISDIR) then ok} + {EIO then ENOENT, EIO EIO then EACCES} x personal file {absent, ok, ok-empty, malformed, EACCES, EIO, wrong-shape, EIO then ok, malformed then absent, EIO then EACCES} x backup {absent, ok, malformed, empty list, zero bytes} x retry configuration MaxAttempts {-1,0,1,2,3,5} x BaseDelay {0,1ms,100ms} x BackoffFactor {1,2,10} x MaxDelay {0,150ms,5s}, each through the real LoadDatabaseWithFallback with answers injected at the file-read seam (vos), attempts counted there and sleeps virtual (vtime). Oracle: non-nil searchable database and nil error always; the real database (main then notebook entries) when the first answers load; never a half-loaded mix; missing / permission-denied tried exactly once; attempts <= max(1, MaxAttempts); waits <= attempts-1, non-decreasing, <= MaxDelay. non-trivial = scripts with more than one attempt",
+		Rule:      "every fault script (thorough: EVERY main-file script of <=3 answers over the 9 answers x every notebook script of <=2 answers over 7, with BaseDelay {0,100ms} x BackoffFactor {1,2}; quick as follows): main file answers per attempt in {9 stationary answers: ok, ok-empty-list, zero-bytes, ENOENT, EACCES, EISDIR, EIO, malformed, wrong-shape} + {one or two transient faults (EIO, malformed, ENOENT, EACCES, EISDIR) then ok} + {EIO then ENOENT, EIO EIO then EACCES} x personal file {absent, ok, ok-empty, malformed, EACCES, EIO, wrong-shape, EIO then ok, malformed then absent, EIO then EACCES} x backup {absent, ok, malformed, empty list, zero bytes} x retry configuration MaxAttempts {-1,0,1,2,3,5} x BaseDelay {0,1ms,100ms} x BackoffFactor {1,2,10} x MaxDelay {0,150ms,5s}, each through the real LoadDatabaseWithFallback with answers injected at the file-read seam (vos), attempts counted there and sleeps virtual (vtime). Oracle: non-nil searchable database and nil error always; the real database (main then notebook entries) when the first answers load; never a half-loaded mix; missing / permission-denied tried exactly once; attempts <= max(1, MaxAttempts); waits <= attempts-1, non-decreasing, <= MaxDelay. non-trivial = scripts with more than one attempt",
 		Assume:    []string{"faults are injected at os.ReadFile / os.Stat of the three paths (vos seam); other file-system calls are not on this path", "BackoffFactor < 1 is outside the checked domain", "the backup rung is unreachable in the current ladder (the built-in list never fails and comes first); it is enumerated but never answers", "whether a transient fault is retried at all is not demanded (only 'at most')"},
 		QuickSecs: 100, ThorSecs: 600,
 		Run: c15Run,
